@@ -45,6 +45,7 @@ type SemOpts struct {
 	Strict     bool // C15 clauses on printed numbers
 	IgnoreOut  bool // only the outcome class matters (C07)
 	SkipNatlog bool
+	RunUnspec  bool // also run programs the specification stops judging (status unspec): only crash-freedom is checked
 	SpliceMeta bool // FamPrint: records 1..3 splice the value of record 0 into strings; they must show the text print showed
 	Render     *RenderOpts
 }
@@ -104,11 +105,11 @@ func compareSem(rec *SemRec, r *Result, o *SemOpts) (string, string) {
 		return "no-termination", fmt.Sprintf("did not finish within %d evaluation steps (the specification needs %d machine steps)", r.Steps, rec.Steps)
 	}
 	rd := runtimeDiags(r)
+	if rec.Status == "unspec" {
+		return "", "" // only crash-freedom and termination are judged
+	}
 	if o.IgnoreOut {
-		if (rec.Status == "error") != (len(rd) > 0) {
-			return "outcome", fmt.Sprintf("expected status %s, got %d diagnostics", rec.Status, len(rd))
-		}
-		return "", ""
+		return "", "" // C07: ends normally or with a reported error; which of the two is the other properties' business
 	}
 	// diagnostics first: they explain most output differences
 	if rec.Status == "done" && len(rd) > 0 {
@@ -202,7 +203,7 @@ func (c *Ctx) replaySemFile(path string, o *SemOpts, sampleEvery int64) *SemStat
 				c.Pool.mu.Unlock()
 				return nil
 			}
-			if rec.Status == "unspec" {
+			if rec.Status == "unspec" && !o.RunUnspec {
 				c.Pool.mu.Lock()
 				st.SkippedUnspec++
 				c.Pool.mu.Unlock()
